@@ -309,7 +309,7 @@ def _post_cos_submit(engine, st, ctx, out):
     cl, acq = _refusal_clauses(engine, st, ctx, out, subs)
     if subs and not isinstance(out, Raise):
         ev = subs[0][1]
-        adds = [(i, e) for i, e in enumerate(st.trace) if e.kind == "set-add"]
+        adds = [(i, e) for i, e in enumerate(st.trace) if e.kind == "mutate" and e.meth == "set.add"]
         regs = [(i, e) for i, e in enumerate(st.trace) if e.kind == "register-cb"]
         rel = [i for i, e in enumerate(st.trace) if e.kind == "release" and e.meth == "_lock" and not any(h[3] == "_lock" for h in e.held)]
         mem = st.ghost.get("cos@copy")
@@ -318,6 +318,10 @@ def _post_cos_submit(engine, st, ctx, out):
                           z3.BoolVal(_same_kw(engine, st, ev.starkw, ctx["k"]))), ["C10", "C01"]))
         cl.append(("the accepted future is recorded before the gate is released (a racing shutdown() will sweep it)", "PC",
                    z3.And(z3.BoolVal(mem is not None), z3.Or(z3.Select(mem["mem"], ev.ret), st.done(Val.id(ev.ret))) if mem else False), ["C10"]))
+        hid = ctx["hid"]
+        gate_held = lambda e: z3.Or([h[2] == hid for h in e.held if h[2] is not None] or [z3.BoolVal(False)])
+        cl.append(("accepting (delegate.submit) and recording (set.add) both happen while the SHUTDOWN GATE is held: shutdown() cannot run in between", "PC",
+                   z3.And(z3.BoolVal(len(adds) == 1), gate_held(adds[0][1]) if adds else False, gate_held(ev)), ["C10"]))
         cl.append(("a done future removes itself from the record (discard registered as its done-callback)", "PC",
                    z3.And(z3.BoolVal(len(regs) == 1), regs[0][1].recv == Val.id(ev.ret) if regs else False), ["C10", "C12"]))
     return cl
@@ -329,3 +333,6 @@ UNITS += [
     Unit("CancelOnShutdownExecutor.submit", "cancel_on_shutdown.CancelOnShutdownExecutor.submit", ["C10", "C11", "C01", "C12"],
          _setup_submit("CancelOnShutdownExecutor"), _post_cos_submit, cfg=_cfg_cos, self_cls="CancelOnShutdownExecutor"),
 ]
+
+
+REPLAYS = [("C10", "CancelOnShutdownExecutor.submit", "replay/c10_submit_shutdown_race.py")]
